@@ -376,18 +376,12 @@ pub fn check(case: &Case, w: usize) -> CheckResult {
                 format!("{} distinct run ids in use with max_retained_runs={}", history.len(), case.max_retained),
             );
         }
-        // a query for an id that no retained run has (one above the highest slot) is refused and
-        // leaves nothing behind
+        // a query for an id that no retained run has (one above the highest slot): whatever it
+        // answers (the statement is silent on that), it must leave nothing behind - the directory
+        // bound below is checked after it
         if k % 2 == 1 {
             let beyond = (case.max_retained + 1).to_string();
-            let q = env.mr(&["log", "show", "--stdout", "--stderr", "--id", &beyond]);
-            if q.ok() {
-                return viol_obs(
-                    "c12.logshow.id.beyond",
-                    format!("log show --id {} succeeds although no run is stored under that id (max_retained_runs={})", beyond, case.max_retained),
-                    q.brief(),
-                );
-            }
+            let _ = env.mr(&["log", "show", "--stdout", "--stderr", "--id", &beyond]);
         }
         let dirs = std::fs::read_dir(env.path("monorail-out/run")).map(|rd| rd.flatten().filter(|e| e.path().is_dir()).count()).unwrap_or(0);
         if dirs > case.max_retained {
